@@ -97,11 +97,14 @@ func pkgPatternOf(key string) string {
 		k = k[1:strings.Index(k, ")")]
 		k = strings.TrimPrefix(k, "*")
 	}
-	i := strings.LastIndex(k, ".")
+	// the package path ends at the first dot after the last slash (keys of interface contracts have two
+	// more components: pkg.Iface.method)
+	sl := strings.LastIndex(k, "/")
+	i := strings.Index(k[sl+1:], ".")
 	if i < 0 {
 		return ""
 	}
-	pk := k[:i]
+	pk := k[:sl+1+i]
 	if !strings.HasPrefix(pk, cadenceMod) {
 		return ""
 	}
